@@ -1,17 +1,17 @@
 package props
 
 import (
-	storagestatus "github.com/oneconcern/datamon/pkg/storage/status"
-	"errors"
-	"strconv"
-	"runtime"
 	"bytes"
 	"context"
+	"errors"
 	"fmt"
+	storagestatus "github.com/oneconcern/datamon/pkg/storage/status"
 	"io"
 	"os"
 	"path/filepath"
+	"runtime"
 	"sort"
+	"strconv"
 	"strings"
 	"sync"
 	"testing"
